@@ -89,8 +89,9 @@ class SgzCropper(SgzReader):
 
         # We need to inform the SEG-Y binary header what has happened to the trace length, otherwise
         # segyio will get all confused if attempting to read the cropped SGZ converted back to SEG-Y
-        header[DISK_BLOCK_BYTES + SEGY_TEXT_HEADER_BYTES + 20:
-               DISK_BLOCK_BYTES + SEGY_TEXT_HEADER_BYTES + 22] = struct.pack('>H', len_zslices)
+        if self.n_header_blocks > 1:
+            header[DISK_BLOCK_BYTES + SEGY_TEXT_HEADER_BYTES + 20:
+                   DISK_BLOCK_BYTES + SEGY_TEXT_HEADER_BYTES + 22] = struct.pack('>H', len_zslices)
 
         return header
 
